@@ -1,7 +1,9 @@
 (* Props/Inlines.v — pinned statements about the inline-parser model (Model/Inlines.v: `Subject` of
    src/parser/inlines.rs, tied to the compiled parser by tools/checks/inlines_tie.py). *)
 From Coq Require Import List NArith ZArith Bool Strings.String.
-From V Require Import Base.Bytes Base.Res Model.Ast Model.Inlines Proofs.InlinesProofs.
+From V Require Import Base.Bytes Base.Res Model.Ast Model.Spx Model.AutolinkLeaf Model.Inlines Proofs.InlinesProofs Proofs.InlinesMemo
+     Proofs.InlinesTotalAutolink Proofs.InlinesTotalFuel Proofs.InlinesTotal.
+From V Require Model.Scan Model.Strings Proofs.RefDefTitle.
 From V Require Gen.Nodes.
 Import ListNotations.
 
@@ -26,11 +28,18 @@ Definition inlines_total_full_statement : Prop :=
     List.length (filter (beqb x0a) inp) < List.length lo ->
     exists ch rs, parse_inlines true o u inp lo sl refmap maxref rs0 = Ok (ch, rs).
 
-(* PROVED: with the autolink extension off (the arms `:` and `w` then emit one byte of text), every arm of
-   parse_inline advances: newline, backticks (either outcome of the closing scan), backslash, entity, pointy
-   brace (autolinks, the five raw HTML forms, plain), delimiter runs, hyphen, period, both brackets (wikilinks,
-   inline links, reference links, footnote references, plain), bang, dollars, and the default arm (the byte that
-   reaches it is not a stop byte of find_special_char: checked for all 256 bytes x 2^7 option sets x within). *)
+(* PROVED (the FULL progress statement; Proofs/InlinesTotal.v, InlinesTotalAutolink.v): every arm of parse_inline
+   advances, whatever the options: newline, backticks (either outcome of the closing scan), backslash, entity,
+   pointy brace (autolinks, the five raw HTML forms, plain), the autolink arms `:` and `w` (a matched link keeps at
+   least `:/` resp. the first `w`: the backward walk of autolink_delim never passes a byte that is not trailing
+   punctuation, `;`, a closing bracket or `&`), delimiter runs, hyphen, period, both brackets (wikilinks, inline
+   links, reference links, footnote references, plain), bang, dollars, and the default arm (the byte that reaches
+   it is not a stop byte of find_special_char: checked for all 256 bytes x 2^7 option sets x within). *)
+Theorem parse_inline_advances : parse_inline_advances_full_statement.
+Proof. exact parse_inline_advances_all. Qed.
+Print Assumptions parse_inline_advances.
+
+(* the earlier partial form (autolink off), kept for the checks that cite it *)
 Theorem parse_inline_advances_partial :
   forall memo o u inp lo sl refmap maxref s s',
     io_autolink o = false ->
@@ -38,18 +47,129 @@ Theorem parse_inline_advances_partial :
 Proof. exact parse_inline_advances_lemma. Qed.
 Print Assumptions parse_inline_advances_partial.
 
-(* PROVED: the fuel |content| + 1 given to the main loop is enough: if the loop reports OutOfFuel, the exhaustion
-   happened inside one call of parse_inline (the bounded inner loops), never in the loop itself. *)
+(* PROVED, all options: the fuel |content| + 1 given to the main loop is enough: if the loop reports OutOfFuel, the
+   exhaustion happened inside one call of parse_inline, never in the loop itself; and the fuel is not observable
+   (a larger fuel gives the same answer). *)
+Theorem inlines_loop_total :
+  forall memo o u inp lo sl refmap maxref rs0,
+    inline_loop memo o u inp lo sl refmap maxref (S (List.length inp)) (init_st sl rs0) = OutOfFuel ->
+    exists s', parse_inline memo o u inp lo sl refmap maxref s' = OutOfFuel.
+Proof. exact inlines_loop_total_lemma. Qed.
+Print Assumptions inlines_loop_total.
+
+Theorem inlines_loop_fuel_irrelevant :
+  forall memo o u inp lo sl refmap maxref f1 f2 s r,
+    inline_loop memo o u inp lo sl refmap maxref f1 s = Ok r -> f1 <= f2 ->
+    inline_loop memo o u inp lo sl refmap maxref f2 s = Ok r.
+Proof. exact inline_loop_fuel_irrelevant. Qed.
+Print Assumptions inlines_loop_fuel_irrelevant.
+
 Theorem inlines_total_partial :
   forall memo o u inp lo sl refmap maxref rs0,
     io_autolink o = false ->
     inline_loop memo o u inp lo sl refmap maxref (S (List.length inp)) (init_st sl rs0) = OutOfFuel ->
     exists s', parse_inline memo o u inp lo sl refmap maxref s' = OutOfFuel.
-Proof.
-  intros memo o u inp lo sl refmap maxref rs0 Ha H.
-  eapply inline_loop_fuel_lemma; [exact Ha| |exact H]. cbn [pos init_st]. apply PeanoNat.Nat.lt_succ_r, PeanoNat.Nat.le_sub_l.
-Qed.
+Proof. exact inlines_total_partial_lemma. Qed.
 Print Assumptions inlines_total_partial.
+
+(* ---- 1b. the bounded inner loops (Proofs/InlinesTotalFuel.v) ----
+   FULL statement: the inline phase of a block never answers OutOfFuel.  The fuel-carrying loops of the phase are
+   the main loop (above), scan_to_closing_dollar / scan_to_closing_code_dollar, the rewind loop of
+   handle_autolink_with, the backward walk of autolink_delim and the closer loop of process_emphasis (pe_loop).
+   PROVED for all of them but pe_loop.  GAP: pe_loop gets 2 |input| + 2 |stack| + 2 iterations; every iteration
+   either moves the closer up the stack or removes at least one byte from the closer's text node, so the bound
+   needs the invariant that the text nodes of the delimiters on the stack hold at most 2 |input| bytes in total
+   (and that their ids are distinct siblings), which is not proved; nor is the propagation lemma that no leaf
+   function (entity, url cleaning, ...) answers OutOfFuel (none of them carries fuel). *)
+Definition inlines_fuel_full_statement : Prop :=
+  forall memo o u inp lo sl refmap maxref rs0,
+    parse_inlines memo o u inp lo sl refmap maxref rs0 <> OutOfFuel.
+
+Theorem dollars_fuel_suffices : forall o inp lo s, handle_dollars o inp lo s <> OutOfFuel.
+Proof. exact handle_dollars_fuel. Qed.
+Print Assumptions dollars_fuel_suffices.
+
+Theorem autolink_url_fuel_suffices :
+  forall o u inp s, handle_autolink_with o s (url_match o u inp) <> OutOfFuel.
+Proof. exact autolink_url_fuel_lemma. Qed.
+Print Assumptions autolink_url_fuel_suffices.
+
+Theorem autolink_www_fuel_suffices :
+  forall o u inp s, handle_autolink_with o s (www_match o u inp) <> OutOfFuel.
+Proof. exact autolink_www_fuel_lemma. Qed.
+Print Assumptions autolink_www_fuel_suffices.
+
+Theorem autolink_delim_fuel_suffices : forall data link_end relaxed, autolink_delim data link_end relaxed <> OutOfFuel.
+Proof. exact autolink_delim_fuel. Qed.
+Print Assumptions autolink_delim_fuel_suffices.
+
+(* ---- 1c. process_emphasis: the opener search stays inside the stack ----
+   The model keeps the stack as a zipper (below the closer, nearest first / closer / above), so "every index is
+   inside the stack" reads: what find_opener returns is a split of the part of the stack it was given, and the
+   opener it names can open, has the closer's character and lies at or above stack_bottom / openers_bottom. *)
+Theorem process_emphasis_opener_inside_stack :
+  forall c bottom below between_rev mod3 between op rest m,
+    find_opener c bottom below between_rev mod3 = (Some (between, op, rest), m) ->
+    rev between_rev ++ below = between ++ op :: rest.
+Proof. exact find_opener_inside. Qed.
+Print Assumptions process_emphasis_opener_inside_stack.
+
+Theorem process_emphasis_opener_matches :
+  forall c bottom below between_rev mod3 between op rest m,
+    find_opener c bottom below between_rev mod3 = (Some (between, op, rest), m) ->
+    d_open op = true /\ beqb (d_char op) (d_char c) = true /\ bottom <= d_pos op.
+Proof. exact find_opener_props. Qed.
+Print Assumptions process_emphasis_opener_matches.
+
+(* ---- 1d. Panic sites ----
+   FULL statement inlines_total_full_statement (above) is NOT proved.  The Panic sites of Model/Inlines.v fall in
+   four groups; what excludes each:
+   (i) local arithmetic (pos-1, endpos-openticks, slices of the input ...): excluded by pos <= |input| and by
+       what the scanning helper just returned.  PROVED for handle_backticks (backticks_local_sites_unreachable:
+       its five sites; a closer lies after the opening run and inside the input: backticks_closer_in_bounds);
+       the other arms need the same kind of bound for their scanners (scan_* / manual_scan_link_url / entity
+       lengths <= length of the slice they were given), not proved here.
+   (ii) source positions (make_inline / end_column try_from.unwrap, insert_emph column subtractions,
+       adjust_node_newlines line table): need column_offset + line_offset >= -(start column) - 1 for every
+       column a node is made with, i.e. an invariant tying column_offset to the last line start <= pos, and the
+       sibling nodes' end columns to their text lengths.  Not proved.
+   (iii) the delimiter / bracket stacks (insert_emph unwraps, bracket not among the children, process_emphasis
+       unreachable!(), pe_loop's non-delimiter branch): need: every stack entry names a distinct Text sibling
+       whose text is d_len copies of d_char, d_char is one of the delimiter bytes.  Not proved.
+   (iv) after the inline phase: Spx::consume in the e-mail autolink / task list pass.  REACHABLE: finding C01-a
+       (pipeline_total_refuted below). *)
+Theorem backticks_closer_in_bounds :
+  forall memo inp s otl e s2,
+    bq inp (pos s) = false -> pos s <= List.length inp ->
+    scan_to_closing_backtick memo inp s otl = (Some e, s2) ->
+    pos s + otl < e /\ e <= List.length inp.
+Proof. exact backticks_closer_bounds. Qed.
+Print Assumptions backticks_closer_in_bounds.
+
+Theorem backticks_local_sites_unreachable :
+  forall memo inp lo s c site,
+    nth_error inp (pos s) = Some c -> beqb c x60 = true ->
+    handle_backticks memo inp lo s = Panic site -> backticks_local_site site = false.
+Proof. exact backticks_local_sites. Qed.
+Print Assumptions backticks_local_sites_unreachable.
+
+(* the pipeline of one block (inline phase, footnote resolution, text post-processing) is NOT total: the model
+   reproduces finding C01-a.  Witness: [^-@.c NEWLINE ] with autolink + footnotes + relaxed_autolinks: the
+   footnote reference gets the span 2:1-2:1 (start column from line 1, end from line 2), is unresolved, becomes
+   the 7-byte Text with that one-column span, and the e-mail pass panics in Spx::consume. *)
+Definition pipeline_total_full_statement : Prop := InlinesTotal.pipeline_total_full_statement.
+
+Theorem pipeline_total_refuted : ~ pipeline_total_full_statement.
+Proof. exact pipeline_total_refuted_lemma. Qed.
+Print Assumptions pipeline_total_refuted.
+
+Theorem pipeline_c01a_witness :
+  run_inlines io_c01a oracle_ascii c01a_witness [0%N; 0%N] 1%N [] 100000%N 0%N
+  = Ok (Done [Node (FootnoteReference [x2d; x40; x2e; x63] 0 0) (mkSp 2 1 2 1) [];
+              Node SoftBreak (mkSp 1 7 1 7) []] 0%N)
+  /\ block_pipeline io_c01a oracle_ascii c01a_witness [0%N; 0%N] 1%N [] = Panic site_assert.
+Proof. exact c01a_values. Qed.
+Print Assumptions pipeline_c01a_witness.
 
 (* ---- 2. node kinds (C04, inline half) ---- *)
 Definition inline_kinds_valid_full_statement : Prop := InlinesProofs.inline_kinds_valid_full_statement.
@@ -81,22 +201,44 @@ Print Assumptions insert_emph_values_inline.
 
 (* ---- 3. the backtick memo (C06) ----
    FULL statement: scan_to_closing_backtick's memo (`scanned_for_backticks && backticks[n] <= pos` answers None
-   without scanning) never changes the result of the inline phase.  It is FALSE of the faithful model, and of
-   comrak: a later scan that stops at its match overwrites backticks[k] with an earlier position. *)
+   without scanning) never changes the result of the inline phase: the parser with the memo and the parser that
+   always scans (`run_inlines_gen false`) agree on every block.  It was FALSE of comrak before the repair of finding
+   INL-1 (a later scan that stopped at its match overwrote backticks[k] with an earlier position); since the table
+   is only written while no scan has reached the end of the input it is a theorem. *)
 Definition backtick_memo_sound_full_statement : Prop := InlinesProofs.backtick_memo_sound_full_statement.
 
-Theorem backtick_memo_refuted : ~ backtick_memo_sound_full_statement.
-Proof. exact backtick_memo_refuted_lemma. Qed.
-Print Assumptions backtick_memo_refuted.
+Theorem backtick_memo_sound : backtick_memo_sound_full_statement.
+Proof. exact backtick_memo_sound_lemma. Qed.
+Print Assumptions backtick_memo_sound.
 
-(* the witness: the last child is the code span x without the memo, a literal backtick with it *)
-Theorem backtick_memo_witness :
+(* the local form.  Invariant of the parser state (InlinesMemo.Inv, kept by every arm of parse_inline:
+   backtick_memo_invariant below): once a scan has reached the end, every maximal backtick run of length
+   n <= MAXBACKTICKS that starts at or after `pos` starts at or before backticks[n].  Under it, when the memo answers
+   "no closer" (backticks[n] <= pos) at a position that does not hold a backtick, the scanning loop started there
+   finds no run of length n, whatever table it is given. *)
+Theorem backtick_memo_local :
+  forall inp s otl fr b,
+    Inv inp s -> bq inp (pos s) = false -> otl <= maxbt ->
+    scanned s = true -> nth otl (bt s) 0 <= pos s ->
+    fst (fst (stcb_loop (skipn (pos s) inp) (pos s) 0 otl fr b)) = None.
+Proof. exact backtick_memo_local_lemma. Qed.
+Print Assumptions backtick_memo_local.
+
+Theorem backtick_memo_invariant :
+  forall memo o u inp lo sl refmap maxref rs0 fuel s,
+    inline_loop memo o u inp lo sl refmap maxref fuel (init_st sl rs0) = Ok s -> Inv inp s.
+Proof. exact backtick_memo_invariant_lemma. Qed.
+Print Assumptions backtick_memo_invariant.
+
+(* Example: the former witness of INL-1 (three backticks, a, a two-backtick span holding a single backtick, d, then a
+   one-backtick span x): the last child is the code span x with and without the memo *)
+Theorem backtick_memo_witness_repaired :
   last_child (run_inlines_gen false io_default oracle_ascii memo_witness [0%N] 1%N [] 100000%N 0%N)
     = Some (Node (Code 1 [x78]) (mkSp 1 21 1 25) [])
   /\ last_child (run_inlines_gen true io_default oracle_ascii memo_witness [0%N] 1%N [] 100000%N 0%N)
-    = Some (Node (Text [x60]) (mkSp 1 25 1 25) []).
+    = Some (Node (Code 1 [x78]) (mkSp 1 21 1 25) []).
 Proof. exact memo_witness_values. Qed.
-Print Assumptions backtick_memo_witness.
+Print Assumptions backtick_memo_witness_repaired.
 
 (* PROVED: the memo only ever replaces an answer by None, and is not consulted before a scan has reached the end *)
 Theorem backtick_memo_partial :
@@ -113,11 +255,20 @@ Proof. exact backtick_memo_unscanned. Qed.
 Print Assumptions backtick_memo_unscanned_same.
 
 (* ---- reference definitions (parse_reference_inline of parser/mod.rs, modelled for the tie's reference map) ----
-   the model reproduces a defect of the implementation: when the title stands on the next line and is followed by
-   other text, the line is given back to the paragraph but the definition keeps the title
-   (content: [a]: /u NEWLINE "t" junk NEWLINE  ->  rest = "t" junk, entry a -> (/u, t)). *)
-Theorem refdef_title_kept_witness :
+   INL-2 (repaired by `title.clear()`): when the title stands on the next line and is followed by other text, the line
+   is given back to the paragraph and the definition has no title.
+   For EVERY content: a stored non-empty title is clean_title of a link_title match at p of length tl that ends
+   inside the consumed bytes (p + tl <= n), so no byte of a stored title is ever given back to the paragraph. *)
+Theorem refdef_title_inside_consumed : forall fold inp n lab url ct,
+  parse_reference_inline fold inp = Ok (Some (n, Some (lab, (url, ct)))) -> ct <> [] ->
+  exists p tl, Scan.scan_link_title (skipn p inp) = Some tl
+               /\ Strings.clean_title (firstn tl (skipn p inp)) = Ok ct /\ p + tl <= n.
+Proof. exact RefDefTitle.I.title_inside_consumed. Qed.
+Print Assumptions refdef_title_inside_consumed.
+
+(* the former witness of the defect (content: [a]: /u NEWLINE "t" junk NEWLINE): rest = "t" junk, entry a -> (/u, no title) *)
+Theorem refdef_title_dropped_witness :
   refdefs (map to_lower_ascii) refdef_witness
-  = Ok ([x22; x74; x22; x20; x6a; x75; x6e; x6b; x0a], [([x61], ([x2f; x75], [x74]))]).
-Proof. exact refdef_title_kept_lemma. Qed.
-Print Assumptions refdef_title_kept_witness.
+  = Ok ([x22; x74; x22; x20; x6a; x75; x6e; x6b; x0a], [([x61], ([x2f; x75], []))]).
+Proof. exact refdef_title_dropped_lemma. Qed.
+Print Assumptions refdef_title_dropped_witness.
